@@ -366,11 +366,24 @@ func TestC19_Cohort(t *testing.T) {
 		a.X = genCohortRich(t)
 		a.X2 = genCohortMember(t, a.X)
 		if op.arity == 2 {
-			switch ir(t, 0, 3, "yKind") {
+			switch ir(t, 0, 4, "yKind") {
 			case 0:
 				a.Y = genCohortMember(t, a.X) // same value: cancellation, equality arms
 			case 1:
 				a.Y = genNearValue(t, a.X)
+			case 2:
+				// an operand that lies entirely in the rounding/sticky region of the other: its
+				// encoding (trailing zeros) decides which alignment arm discards which of its digits
+				nx := a.X.Num()
+				if nx.Class != ref.Finite || nx.IsZero() {
+					a.Y = genCohortRich(t)
+					break
+				}
+				pat := []string{"5", "1", "50000001", "5000001", "49999999", "500000000000001", "7", "25"}[ir(t, 0, 7, "pattern")]
+				pc, _ := new(big.Int).SetString(pat, 10)
+				p := nx.Exp + ref.DecLen(nx.Coef) - 34 // exponent of the last digit of a 34-digit result
+				lead := p - 1 - ir(t, 0, 3, "below")  // exponent of y's leading digit
+				a.Y = DFin(genSign(t), pc, clampExp(lead-len(pat)+1))
 			default:
 				a.Y = genCohortRich(t)
 			}
